@@ -11,6 +11,7 @@ mod c10;
 mod c11;
 mod bersup;
 mod c12;
+mod c13;
 mod c14;
 mod c15;
 mod c17;
@@ -53,6 +54,8 @@ fn main() {
         ("gen", "C11") => c11::generate(&a),
         ("gen", "C18") => c18::generate(&a),
         ("gen", "C12") => c12::generate(&a),
+        ("gen", "C13") => c13::generate(&a),
+        ("berchild", "C13") => c13::child(&a),
         ("gen", "C14") => c14::generate(&a),
         ("gen", "C15") => c15::generate(&a),
         ("gen", "C17") => c17::generate(&a),
